@@ -8,6 +8,13 @@ Case lines (all numbers decimal):
 * `pow M a d`     — `new(a).pow(d)`, `d : u64`
 * `io M v`        — `Writable` bytes of `new(v)` and `Readable` value of the token `v`
 
+* `cst M 0`       — `ZERO`, `ONE`, `md()`, `ZERO == new(0)`, `ONE == new(1)`
+* `chain M v0 ; op ; op …` — one accumulator, every result fed back (`Op` in `Model/Mint.lean`); prints the
+                    accumulator after every step; `S any` when an inverse of a non-coprime value is taken on the way
+* `ios M ; t1 ; … ; tk` — k tokens read one after the other from ONE `Reader` (as `Modular<M>`, and alternating with `i64`),
+                    the values written through ONE `Writer` and read back
+* `thr <case>`    — the same case evaluated on a freshly spawned thread (same answer expected)
+
 `S` is `any` outside the property's domain (`2 ≤ M < 2^31`, arguments inside their machine types).
 -/
 open Rlib Rlib.Mint
@@ -38,11 +45,91 @@ def viewDiv (M x y : Int) (r : Except Panic Int) : String :=
   | .error e => e.toString
   | .ok z => if isQuotOf M x y z then "ok" else "bad"
 
-def handle (line : String) : String :=
+/-- one step of a `chain` case; assigning and by-value spellings are the same model step, and so are all
+    the ways of copying a value (the harness reports a mismatch between them in place of the value) -/
+def parseOp? (s : String) : Option Op :=
+  match tokens s with
+  | [o, v] =>
+    if o == "pow" || o == "powc" then (parseNat? v).map Op.pow else
+    (parseInt? v).bind fun v =>
+      match o with
+      | "+" | "+=" => some (.add v)
+      | "-" | "-=" => some (.sub v)
+      | "r-" => some (.rsub v)
+      | "*" | "*=" => some (.mul v)
+      | "/" | "/=" => some (.div v)
+      | "r/" => some (.rdiv v)
+      | "eq" => some (.eqv v)
+      | _ => none
+  | [o] =>
+    match o with
+    | "neg" => some .neg
+    | "inv" => some .inv
+    | "sq" | "sq=" => some .sq
+    | "dbl" | "dbl=" => some .dbl
+    | "ssub" | "ssub=" => some .selfsub
+    | "sdiv" | "sdiv=" => some .selfdiv
+    | "clone" | "clonefrom" | "copy" | "vec" | "rt" | "fmt" => some .ident
+    | "renew" => some .renew
+    | "zero" => some .zero
+    | "one" => some .one
+    | _ => none
+  | _ => none
+
+def opArgsFit : Op → Bool
+  | .add v | .sub v | .rsub v | .mul v | .div v | .rdiv v | .eqv v => i64.fits v
+  | .pow d => u64.fits d
+  | _ => true
+
+def showChain (xs : List String) : String := "[" ++ ",".intercalate xs ++ "]"
+
+def handleChain (line : String) : String :=
+  match splitOps line with
+  | [] => badLine line
+  | hdr :: opss =>
+    match tokens hdr, opss.mapM parseOp? with
+    | [_, Ms, v0s], some ops =>
+      match parseInt? Ms, parseInt? v0s with
+      | some M, some v0 =>
+        let dom0 := inDomM M && i64.fits v0 && ops.all opArgsFit
+        match new M v0 with
+        | .ok a0 =>
+          let m := showChain (toString a0 :: (runM M a0 ops).map showR)
+          let dom := dom0 && domS M (red M v0) ops
+          let s := showChain ((red M v0 :: runS M (red M v0) ops).map toString)
+          ood (inDomM M) (answer m (if dom then s else "any"))
+        | .error e =>
+          let m := s!"operand:{e}"
+          ood (inDomM M) (answer m (if dom0 then "no-panic" else "any"))
+      | _, _ => badLine line
+    | _, _ => badLine line
+
+def handle1 (line : String) : String :=
   match tokens line with
   | [] => badLine line
+  | "chain" :: _ => handleChain line
   | op :: rest =>
   match op, parseInts? rest with
+  | "cst", some [M, _] =>
+    let dom := inDomM M
+    let e0 := match new M 0 with | .ok x => showBool (eq zero x) | .error e => e.toString
+    let e1 := match new M 1 with | .ok x => showBool (eq one x) | .error e => e.toString
+    -- `pub type Mint998 = Modular<998244353>`, `pub type Mint107 = Modular<1000000007>`: the harness prints `md()` of the alias
+    let al := if M = 998244353 ∨ M = 1000000007 then toString M else "-"
+    let m := s!"zero={zero} one={one} md={md M} eqz={e0} eqo={e1} alias={al}"
+    ood dom (answer m (if dom then s!"zero={red M 0} one={red M 1} md={M} eqz=true eqo=true alias={al}" else "any"))
+  | "ios", some (M :: ts) =>
+    let dom := inDomM M && ts.all i64.fits
+    let rs := showChain ((ts.map (readTok M)).map showR)
+    -- the written text of every value, read back as a token
+    let back := ts.map fun t => match readTok M t with
+      | .ok x => showR (readTok M x)
+      | .error e => e.toString
+    let w := "_".intercalate ((ts.map (readTok M)).map fun r => match r with | .ok x => render x | .error e => e.toString)
+    let m := s!"r={rs} alt={rs} w={w} rt={showChain back} eof=true"
+    let ss := showChain (ts.map fun t => toString (red M t).toNat)
+    let sw := "_".intercalate (ts.map fun t => toString (red M t).toNat)
+    ood dom (answer m (if dom then s!"r={ss} alt={ss} w={sw} rt={ss} eof=true" else "any"))
   | "new", some [M, v] =>
     let dom := inDomM M && i64.fits v
     ood dom (answer (showR (new M v)) (if dom then toString (specNew M v) else "any"))
@@ -98,5 +185,22 @@ def handle (line : String) : String :=
     let sv := toString (red M v).toNat
     ood dom (answer m (if dom then s!"w={sv} r={sv} rt={sv}" else "any"))
   | _, _ => badLine line
+
+/-- `thr <case>`: the harness evaluates `<case>` on a freshly spawned thread; the answer must be the same -/
+def handle2 (line : String) : String :=
+  match tokens line with
+  | "ios" :: _ =>
+    -- `ios M ; t1 ; t2 …` (one token per step, so that the shrinker can delete tokens)
+    match splitOps line with
+    | hdr :: ts =>
+      if (tokens hdr).length == 2 && !ts.isEmpty && ts.all (fun t => (tokens t).length == 1) then handle1 (" ".intercalate (hdr :: ts))
+      else badLine line
+    | [] => badLine line
+  | _ => handle1 line
+
+def handle (line : String) : String :=
+  match tokens line with
+  | "thr" :: _ => handle2 ((line.trimAscii.toString.drop 3).toString)
+  | _ => handle2 line
 
 def main : IO Unit := driverMain handle
